@@ -120,6 +120,10 @@ func RunSchedule(gen *Genesis, tmp string, seed int64, rec *Recorder, s Schedule
 	d := NewDriver(c)
 	prepScene(d, s.Scene)
 	rec.Reset(s.ID, c.Project(c.ReadCtx()))
+	if c.Halted != "" { // block processing already failed while the scene was being set up (unrecorded blocks): that is a halt too
+		c.emitHalt(nil)
+		stats["halted_in_setup"]++
+	}
 	for _, st := range s.Steps {
 		if c.Halted != "" {
 			break
